@@ -427,6 +427,26 @@ func c15AliasGraph(rng *Rng) c15Graph {
 	return c15Graph{Files: files, Entries: []string{fmt.Sprintf("/f%d.js", n+1), fmt.Sprintf("/f%d.js", n)}}
 }
 
+// c15EvalGraph: direct eval inside *nested* scopes of an ES module that is bundled with another module declaring the same
+// names at its top level. The locals, parameters and block bindings that the eval code reads live in scopes containing a
+// direct eval, so they must keep their names (collision avoidance would otherwise rename them to name2 and the eval would
+// silently read the other module's top-level binding; identifier minification would make it throw).
+func c15EvalGraph(rng *Rng) c15Graph {
+	names := []string{"secret", "other", "e", "t", "x", "x2", "value"}
+	rng.Shuffle(len(names), func(i, j int) { names[i], names[j] = names[j], names[i] })
+	a, b := names[0], names[1]
+	f0 := fmt.Sprintf("$(\"file\", 0);\nexport let %s = \"top-%s-of-f0\", %s = \"top-%s-of-f0\";\nexport function get() { return [%s, %s]; }\nexport default 0;\n", a, a, b, b, a, b)
+	f1 := fmt.Sprintf("import {%s as imported, get} from \"./f0.js\";\n$(\"file\", 1);\n"+
+		"export function viaFunction(p) { var %s = \"local-var\"; let %s = \"local-let\"; return [eval(\"%s\"), eval(\"%s\"), eval(\"p\"), imported]; }\n"+
+		"export const viaArrow = (%s) => { { let %s = \"block-let\"; return [eval(\"%s + %s\")]; } };\n"+
+		"export class K { m(%s) { const %s = \"method-const\"; return eval(\"[%s, %s]\"); } }\n"+
+		"function* gen(%s = \"default-param\") { for (let %s of [\"loop-let\"]) yield eval(\"%s + %s\"); }\n"+
+		"$(\"r\", viaFunction(\"param\"), viaArrow(\"arrow-param\"), new K().m(\"method-param\"), [...gen()], get());\nexport default 1;\n",
+		a, a, b, a, b, a, b, a, b, b, a, a, b, a, b, a, b)
+	f2 := fmt.Sprintf("import \"./f1.js\";\nimport {%s, %s} from \"./f0.js\";\n$(\"file\", 2);\n$(\"top\", %s, %s);\nexport default 2;\n", a, b, a, b)
+	return c15Graph{Files: map[string]string{"/f0.js": f0, "/f1.js": f1, "/f2.js": f2}, Entries: []string{"/f2.js", "/f1.js"}}
+}
+
 // ES-module graph: every file is a scopegen module; later files import pool-named bindings from earlier ones.
 func c15EsmGraph(rng *Rng) c15Graph {
 	n := 2 + rng.Intn(4)
@@ -596,8 +616,11 @@ func c15Bundles(r *Run, pool *Pool, st *c15Stats, prelude string) {
 		rng := newRng(r.Seed, fmt.Sprint("c15bundle", i))
 		var gr c15Graph
 		aliasGraph := i%11 == 10
+		evalGraph := i%11 == 5
 		if aliasGraph {
 			gr = c15AliasGraph(rng)
+		} else if evalGraph {
+			gr = c15EvalGraph(rng)
 		} else if i%3 == 2 {
 			gr = c15MixedGraph(rng)
 		} else {
@@ -616,6 +639,9 @@ func c15Bundles(r *Run, pool *Pool, st *c15Stats, prelude string) {
 			}
 			if aliasGraph {
 				vs = []c15BundleVariant{variants[6], variants[7], variants[0]}
+			}
+			if evalGraph {
+				vs = []c15BundleVariant{variants[0], variants[1], variants[2+rng.Intn(6)]}
 			}
 			if gr.Static {
 				// static-only graphs cost one build and one parse per variant: always include the plain esm bundle
@@ -666,7 +692,10 @@ func c15Bundles(r *Run, pool *Pool, st *c15Stats, prelude string) {
 				}
 				code := string(f.Contents)
 				replay := map[string]interface{}{"graph": gr, "variant": v.name, "file": f.Path, "output": stripTags(code)}
-				b, err := pool.Bindcheck(code, goal, map[string]interface{}{"pinnedTop": false, "reportUntaggedNested": true})
+				// (eval graphs: in a scope-hoisted bundle the top-level names of *other* modules also lie on the eval's scope chain,
+				// and esbuild may rename top-level names of ES modules when bundling; which names the eval code really reads is
+				// decided there by executing the bundle against the native run, not by the static eval-visibility rule)
+				b, err := pool.Bindcheck(code, goal, map[string]interface{}{"pinnedTop": false, "reportUntaggedNested": true, "skipEvalVisibleRule": evalGraph})
 				if err != nil {
 					r.Count("oracle_errors", 1)
 					ok = false
